@@ -48,6 +48,9 @@ func (e *Embed) Guard(g AGuard) biscuit.Expression {
 	if g.O == "pre" {
 		return biscuit.Expression{biscuit.Value{Term: e.Term(g.L)}, biscuit.Value{Term: e.Term(g.R)}, biscuit.BinaryPrefix}
 	}
+	if g.O == "re" { // every constant is a string of letters "a": a valid pattern, found in the subject iff it is not longer
+		return biscuit.Expression{biscuit.Value{Term: e.Term(g.L)}, biscuit.Value{Term: e.Term(g.R)}, biscuit.BinaryRegex}
+	}
 	ex := biscuit.Expression{biscuit.Value{Term: e.Term(g.L)}, biscuit.Value{Term: e.Term(g.R)}, bin[g.O]}
 	if g.O == "ne" {
 		ex = append(ex, biscuit.UnaryNegate)
